@@ -1,10 +1,6 @@
 package main
 
-import "verif/harness/internal/gen"
-
 type simDriver struct{}
 
 func newSimDriver(workDir string) (*simDriver, error) { return &simDriver{}, nil }
 func (s *simDriver) run(in Input) Obs                  { return Obs{Note: "sim not implemented"} }
-func generate(prop string, o gen.Opts) ([]Input, []string) { return nil, nil }
-func caseTerm(in Input, o Obs) string                  { return "TODO" }
